@@ -10,6 +10,7 @@ import (
 	"archive/tar"
 	"bytes"
 	"compress/gzip"
+	"encoding/base64"
 	"fmt"
 	"os"
 	"path/filepath"
@@ -32,9 +33,9 @@ const (
 
 	// the first 8/6/4/4 objects are the original universe (committed replays name them)
 	nBlobs     = 12
-	nImages    = 8
-	nIndexes   = 7
-	nArtifacts = 7
+	nImages    = 9
+	nIndexes   = 8
+	nArtifacts = 8
 )
 
 // Obj names one object of the universe.
@@ -80,7 +81,8 @@ var blobSizes = [nBlobs]int{0, 16, 300, 5000, 33000, 70000, 64, 2000, 1, 32768, 
 
 // image 5 is a Docker schema2 image, image 6 lists the same layer twice (and a layer of exactly one
 // copy buffer), image 7 is addressed by a sha512 digest (its manifest lives under blobs/sha512)
-var imageLayers = [nImages][]int{{1}, {2, 3}, {1, 4}, {0, 5}, {6, 7}, {7, 1}, {1, 9, 1}, {6, 8}}
+// image 8: every descriptor (config, layers of 1 and 16 bytes) carries its content inline ("data")
+var imageLayers = [nImages][]int{{1}, {2, 3}, {1, 4}, {0, 5}, {6, 7}, {7, 1}, {1, 9, 1}, {6, 8}, {8, 1}}
 
 var indexKids = [nIndexes][]Obj{
 	{{"image", 0}, {"image", 1}},
@@ -90,12 +92,14 @@ var indexKids = [nIndexes][]Obj{
 	{{"image", 5}, {"image", 0}}, // 4: Docker manifest list
 	{{"image", 1}, {"image", 1}}, // 5: the same child twice
 	{{"image", 7}, {"image", 0}}, // 6: a sha512-addressed child
+	{{"image", 8}, {"image", 0}}, // 7: a child whose descriptors carry inline data
 }
 
+// artifact 7 carries the empty config and its payload inline ("data":"e30=" as ORAS / regctl write it);
 // artifact 4 is of the (deprecated, still supported) OCI artifact manifest type, artifact 5 is an
 // INDEX with a subject (its child is image 1), artifact 6 refers to the sha512-addressed image 7
 var artifactSubject = [nArtifacts]Obj{{"image", 0}, {"image", 0}, {"index", 0}, {"artifact", 0},
-	{"image", 1}, {"image", 0}, {"image", 7}}
+	{"image", 1}, {"image", 0}, {"image", 7}, {"image", 1}}
 
 func pattern(tag string, size int) []byte {
 	var b bytes.Buffer
@@ -196,6 +200,18 @@ func descJSON(o Obj, mtOverride string, extra string) string {
 	return fmt.Sprintf(`{"mediaType":%q,"digest":%q,"size":%d%s}`, mt, objDigest(o), len(b), extra)
 }
 
+// dataExtra is the inline copy of an object's content for its descriptor.
+func dataExtra(o Obj) string {
+	b, _ := objRaw(o)
+	return fmt.Sprintf(`,"data":%q`, base64.StdEncoding.EncodeToString(b))
+}
+
+// inlineData tells whether the descriptors inside a manifest object carry inline data.
+func inlineData(o Obj) bool {
+	o = norm(o)
+	return (o.T == "image" && o.N == 8) || (o.T == "artifact" && o.N == 7) || (o.T == "index" && o.N == 7)
+}
+
 func imageManifest(j int) []byte {
 	var layers []string
 	for _, l := range imageLayers[j] {
@@ -203,7 +219,15 @@ func imageManifest(j int) []byte {
 		if j == 5 {
 			lmt = mtDockerLayerGz
 		}
-		layers = append(layers, descJSON(Obj{"blob", l}, lmt, ""))
+		extra := ""
+		if j == 8 {
+			extra = dataExtra(Obj{"blob", l})
+		}
+		layers = append(layers, descJSON(Obj{"blob", l}, lmt, extra))
+	}
+	if j == 8 {
+		return []byte(fmt.Sprintf(`{"schemaVersion":2,"mediaType":%q,"config":%s,"layers":[%s],"annotations":{"verif.image":"%d"}}`,
+			mtOCIManifest, descJSON(Obj{"config", j}, "", dataExtra(Obj{"config", j})), strings.Join(layers, ","), j))
 	}
 	if j == 5 {
 		return []byte(fmt.Sprintf(`{"schemaVersion":2,"mediaType":%q,"config":%s,"layers":[%s]}`,
@@ -235,8 +259,12 @@ func artifactManifest(a int) []byte {
 		return []byte(fmt.Sprintf(`{"schemaVersion":2,"mediaType":%q,"artifactType":"application/vnd.verif.a%d","manifests":[%s],"subject":%s,"annotations":{"verif.artifact":"%d"}}`,
 			mtOCIIndex, a, descJSON(Obj{"image", 1}, "", `,"platform":{"architecture":"amd64","os":"linux"}`), descJSON(artifactSubject[a], "", ""), a))
 	}
+	ce, pe := "", ""
+	if a == 7 {
+		ce, pe = dataExtra(Obj{"empty", 0}), dataExtra(Obj{"payload", a})
+	}
 	return []byte(fmt.Sprintf(`{"schemaVersion":2,"mediaType":%q,"artifactType":"application/vnd.verif.a%d","config":%s,"layers":[%s],"subject":%s,"annotations":{"verif.artifact":"%d"}}`,
-		mtOCIManifest, a, descJSON(Obj{"empty", 0}, "", ""), descJSON(Obj{"payload", a}, "", ""),
+		mtOCIManifest, a, descJSON(Obj{"empty", 0}, "", ce), descJSON(Obj{"payload", a}, "", pe),
 		descJSON(artifactSubject[a], "", ""), a))
 }
 
